@@ -259,6 +259,12 @@ void mem(ResourceManager* r, VariantData* v, ArrayData* a, ObjectData* o, Collec
 void mem2(ResourceManager& a, ResourceManager& b) {
   swap(a, b);
 }
+void mem3(JsonDocument& a, JsonDocument& b) {
+  a = detail::move(b);
+  JsonDocument c(detail::move(a));
+  JsonDocument d(b);
+  a = d;
+}
 void filt(DeserializationOption::Filter f, const char* k, JsonString js) {
   (void)f.allow();
   (void)f.allowArray();
